@@ -56,7 +56,14 @@ func c05prefix(s *Set[int], u []int) [2]bool {
 			s.Has(u[0])
 		}
 	}
-	switch vChoose("prefix", 6) {
+	switch vChoose("prefix", 7) {
+	case 6: // x promoted, y added (dirty map rebuilt, read map amended), then x removed: nil entry present in both maps
+		s.Add(u[0])
+		promote()
+		s.Add(u[1])
+		s.Remove(u[0])
+		in[1] = true
+		vCover("setconc prefix: nil entry in an amended map")
 	case 5: // x expunged (deleted, then the dirty map re-created for y)
 		s.Add(u[0])
 		promote()
